@@ -53,6 +53,8 @@ def cases(tier, seed):
     for r in range(10):
         out.append({'k': 'stage', 'stage': 'keyexp', 'round': r})
     out.append({'k': 'stage', 'stage': 'keyexp_wire'})
+    for r in (1, 2, 10):
+        out.append({'k': 'stage', 'stage': 'keygen_second', 'round': r})
     out.append({'k': 'statem', 'dir': 'enc'})
     out.append({'k': 'statem', 'dir': 'dec'})
     if tier != 'quick':
@@ -197,6 +199,10 @@ def _stage_circuit(stage, rnd=None):
         y = A._key_expansion(x, rnd)
     elif stage == 'keyexp_wire':
         y = A._key_expansion(x, pyrtl.Input(4, 'c'))
+    elif stage == 'keygen_second':
+        # ONE AES object used for two units with different keys: the round keys of the second key must be its own
+        A._key_gen(pyrtl.Input(128, 'k'))
+        y = A._key_gen(x)[rnd]
     o = pyrtl.Output(128, 'y')
     o <<= y
     return A, pyrtl.working_block()
@@ -221,6 +227,8 @@ def _stage_reference(stage, A, v, rnd=None):
         return refs.xor_bytes(xb, refs.bytes_of(v.inp('k', 0, 128))), []
     if stage == 'keyexp':
         return refs.key_expand_step(xb, refs.RCON[rnd + 1], F), []
+    if stage == 'keygen_second':
+        return refs.key_schedule(xb, F)[rnd], []
     if stage == 'keyexp_wire':
         c = v.inp('c', 0, 4)
         idx = z3.ZeroExt(4, c) + 1
@@ -582,7 +590,8 @@ def replay(cex):
                'inv_shift': lambda: refs.shift_rows(xb, True), 'mix': lambda: refs.mix_columns(xb, F),
                'inv_mix': lambda: refs.mix_columns(xb, F, True), 'addkey': lambda: refs.xor_bytes(xb, refs.bytes_of(ins.get('k', 0))),
                'keyexp': lambda: refs.key_expand_step(xb, refs.RCON[c.get('round', 0) + 1], F),
-               'keyexp_wire': lambda: refs.key_expand_step(xb, refs.RCON[ins.get('c', 0) + 1], F)}[st]()
+               'keyexp_wire': lambda: refs.key_expand_step(xb, refs.RCON[ins.get('c', 0) + 1], F),
+               'keygen_second': lambda: refs.key_schedule(xb, F)[c.get('round', 1)]}[st]()
         got = sim.inspect('y')
         e = refs.join_bytes(exp)
         return got != e, 'stage %s(%x) = %x, FIPS-197 gives %x' % (st, ins['x'], got, e)
